@@ -18,6 +18,10 @@ CLASSES = {
     "dict_str_ref": {"fields": {"keys": ("seq", "str"), "map": ("map", "str", "int")}, "bases": [], "lib": True},
     "dict_PDDLObject": {"fields": {"keys": ("seq", "str"), "map": ("map", "str", "int")}, "bases": [], "lib": True, "elem": "PDDLObject"},
     "dict_PDDLType": {"fields": {"keys": ("seq", "str"), "map": ("map", "str", "int")}, "bases": [], "lib": True, "elem": "PDDLType"},
+    "dict_PDDLFunction": {"fields": {"keys": ("seq", "str"), "map": ("map", "str", "int")}, "bases": [], "lib": True, "elem": "PDDLFunction"},
+    "set_GroundedPredicate": {"fields": {"items": ("seq", ("ref", "GroundedPredicate"))}, "bases": [], "lib": True},
+    "dict_set_GroundedPredicate": {"fields": {"keys": ("seq", "str"), "map": ("map", "str", "int")}, "bases": [], "lib": True,
+                                   "elem": "set_GroundedPredicate"},
     "dict_str_str": {"fields": {"keys": ("seq", "str"), "map": ("map", "str", "str")}, "bases": [], "lib": True},
     # repository classes ---------------------------------------------------------------------------
     "PDDLTokenizer": {"fields": {"pddl_file_content": ("ref", "list_str")}, "bases": [],
@@ -35,11 +39,14 @@ CLASSES = {
                           "bases": ["Predicate"], "src": ("models.pddl_predicate", "GroundedPredicate")},
     "NumericalExpressionTree": {"fields": {"root": "tree"}, "bases": [],
                                 "src": ("models.numerical_expression", "NumericalExpressionTree")},
-    "State": {"fields": {"is_init": "bool", "state_predicates": ("ref", "opaque"),
-                         "state_fluents": ("ref", "opaque")}, "bases": [],
+    "State": {"fields": {"is_init": "bool", "state_predicates": ("ref", "dict_set_GroundedPredicate"),
+                         "state_fluents": ("ref", "dict_PDDLFunction")}, "bases": [],
               "src": ("models.pddl_state", "State")},
     "opaque": {"fields": {}, "bases": [], "lib": True},
-    "Domain": {"fields": {"name": "str", "types": ("ref", "dict_PDDLType"), "constants": ("ref", "dict_PDDLObject"),
+    "Path": {"fields": {"stem": "str"}, "bases": [], "lib": True},
+    "MultiAgentDomainsConverter": {"fields": {"logger": ("ref", "opaque"), "domains_directory_path": ("ref", "Path")}, "bases": [],
+                                   "src": ("multi_agent.multi_agent_domain_converter", "MultiAgentDomainsConverter")},
+    "Domain": {"fields": {"name": "str", "requirements": ("ref", "list_str"), "types": ("ref", "dict_PDDLType"), "constants": ("ref", "dict_PDDLObject"),
                           "predicates": ("ref", "dict_str_ref"), "functions": ("ref", "dict_str_ref"), "actions": ("ref", "dict_str_ref")},
                "bases": [], "src": ("models.pddl_domain", "Domain")},
     "ProblemParser": {"fields": {"domain": ("ref", "Domain"), "problem": ("ref", "Problem")}, "bases": [],
@@ -48,8 +55,8 @@ CLASSES = {
                            "src": ("exporters.numeric_trajectory_exporter", "TrajectoryExporter")},
     "TrajectoryTriplet": {"fields": {"previous_state": ("ref", "State"), "operator": ("ref", "opaque"), "next_state": ("ref", "State")},
                           "bases": [], "src": ("exporters.numeric_trajectory_exporter", "TrajectoryTriplet")},
-    "Problem": {"fields": {"objects": ("ref", "dict_PDDLObject"), "initial_state_predicates": ("ref", "opaque"),
-                           "initial_state_fluents": ("ref", "opaque")}, "bases": [], "src": ("models.pddl_problem", "Problem")},
+    "Problem": {"fields": {"objects": ("ref", "dict_PDDLObject"), "initial_state_predicates": ("ref", "dict_set_GroundedPredicate"),
+                           "initial_state_fluents": ("ref", "dict_PDDLFunction")}, "bases": [], "src": ("models.pddl_problem", "Problem")},
     "Action": {"fields": {"name": "str", "signature": ("ref", "dict_str_ref"), "preconditions": ("ref", "CompoundPrecondition"),
                           "discrete_effects": ("ref", "opaque"), "numeric_effects": ("ref", "opaque"),
                           "conditional_effects": ("ref", "opaque"), "universal_effects": ("ref", "opaque")}, "bases": [],
